@@ -149,12 +149,15 @@ def run(ctx):
                               dict(stream="minimal", text=text))
 
     # ---- rich forms with ground truth
+    import datetime
+    this_year = datetime.date.today().year
     for _ in range(3000 if th else 300):
         pl, df = rng.sample(NAMES, 2)
         R = rng.choice(SAFE_REPS)
         vol, page = rng.choice([1, 12, 347]), rng.choice([1, 99, 1955])
         pin = rng.choice([None, str(page + 3), f"{page + 3}-{page + 5}", f"{page + 1}, {page + 9}"])
-        year = rng.choice([None, "1999", "2007"])
+        # well-formed years: the whole accepted range 1600 .. next year, both ends included
+        year = rng.choice([None, "1999", "2007", "1600", "1601", str(this_year), str(this_year + 1)])
         paren = rng.choice([None, None, "per curiam", "holding that (a) applies"])
         form = rng.choice(["full", "full", "short", "supra", "id", "journal"])
         pre = rng.choice(["See ", "In ", ""])
@@ -169,7 +172,8 @@ def run(ctx):
             checks = []
             if c is not None:
                 checks = [("span", c.span() == (s0, s0 + len(core_))), ("pin", c.metadata.pin_cite == pin),
-                          ("year", c.metadata.year == year), ("defendant", c.metadata.defendant == df),
+                          ("year", c.metadata.year == year), ("numeric year", c.year == (int(year) if year else None)),
+                          ("defendant", c.metadata.defendant == df),
                           ("plaintiff suffix", bool(c.metadata.plaintiff) and pl.endswith(c.metadata.plaintiff)),
                           ("parenthetical", c.metadata.parenthetical == (paren if year else None)),
                           ("full span start", c.full_span()[0] == text.index(pl) + len(pl) - len(c.metadata.plaintiff or "")),
@@ -210,7 +214,8 @@ def run(ctx):
             ok = len(cs) == 1
             c = cs[0] if cs else None
             s0 = text.index(core_)
-            checks = [] if c is None else [("span", c.span() == (s0, s0 + len(core_))), ("pin", c.metadata.pin_cite == pin), ("year", c.metadata.year == year)]
+            checks = [] if c is None else [("span", c.span() == (s0, s0 + len(core_))), ("pin", c.metadata.pin_cite == pin), ("year", c.metadata.year == year),
+                                           ("numeric year", c.year == (int(year) if year else None))]
         n_opt = sum(x is not None for x in (pin, year, paren))
         ctx.case("rich", text, n_opt >= 2, dict(form=form, text=text) if n_opt >= 2 and len(ctx.samples) < 10 else None)
         ctx.count("rich " + form)
